@@ -665,7 +665,11 @@ where
                 index_type,
                 ..
             }) => {
-                if let Some(ty) = self.resolve_indexed_access(obj_type, index_type) {
+                // nothing found under that index: `None`, or a union without members
+                if let Some(ty) = self
+                    .resolve_indexed_access(obj_type, index_type)
+                    .filter(|ty| !is_empty_union(ty))
+                {
                     self.resolve_type_elements(&ty, props);
                 } else {
                     HANDLER.with(|handler| {
@@ -1250,14 +1254,7 @@ where
                 // nothing found under that index: `None`, or a union without members
                 let resolved = self
                     .resolve_indexed_access(obj_type, index_type)
-                    .filter(|ty| {
-                        !matches!(
-                            ty,
-                            TsType::TsUnionOrIntersectionType(
-                                TsUnionOrIntersectionType::TsUnionType(TsUnionType { types, .. })
-                            ) if types.is_empty()
-                        )
-                    });
+                    .filter(|ty| !is_empty_union(ty));
                 match resolved {
                     Some(ty) => runtime_types.extend(self.infer_runtime_type(&ty)),
                     None => {
@@ -1530,6 +1527,15 @@ fn contains_jsx(expr: &Expr) -> bool {
     let mut finder = Finder(false);
     expr.visit_with(&mut finder);
     finder.0
+}
+
+fn is_empty_union(ty: &TsType) -> bool {
+    matches!(
+        ty,
+        TsType::TsUnionOrIntersectionType(
+            TsUnionOrIntersectionType::TsUnionType(TsUnionType { types, .. })
+        ) if types.is_empty()
+    )
 }
 
 /// `T[number]`, `T[0]`
